@@ -209,7 +209,7 @@ def bad_heads(rng, thorough):
     H.append(("missing-soh", SOH + b"8=" + BEGIN + SOH + b"9=12" + SOH + fill(12)))
     # preambles reaching the size of msg_buf
     for head in (b"X", HDR, b"8=FIX.4.1" + SOH, b"8=" + BEGIN + SOH, b"=", b"8", b"8=" + BEGIN + SOH + b"9=" + SOH):
-        overflows = head[:1] == b"8" and head != b"8=FIX.4.1" + SOH
+        overflows = head[:1] in (b"8", b"=") and head != b"8=FIX.4.1" + SOH
         for n in (MAXLEN - 1, MAXLEN, MAXLEN + 1, MAXLEN + 50):
             if thorough or not overflows or (head == HDR and n == MAXLEN):
                 H.append(("max-preamble", head + d(n - len(head), b"3") + rng.choice((b"", SOH, b"Z"))))
@@ -227,7 +227,7 @@ def gen_cases(rng, tier):
     rep = 4 if thorough else 1
 
     # 1. valid streams, 1..5 frames, all chunking styles
-    for _ in range(260 * rep):
+    for _ in range(220 * rep):
         k = rng.randrange(1, 6)
         s = b"".join(rand_frame(rng) for _ in range(k))
         cs.append(mk(rng.randrange(2), rng.randrange(2), rand_chunks(rng, s), "valid-%d" % k))
@@ -260,8 +260,10 @@ def gen_cases(rng, tier):
         for c in range(0, len(s)):
             cs.append(mk(c % 3 != 0, rng.randrange(2), rand_chunks(rng, s[:c], rng.choice((0, 2, 3))), "truncated"))
     # 4. corrupted preambles after 0..2 valid frames
-    for _ in range(rep):
+    for r in range(rep):
         for cls, h in bad_heads(rng, thorough):
+            if r > 0 and cls in ("digit-run", "long-value", "max-preamble"):
+                continue        # the memory-error cases once (each costs two process starts)
             k = rng.choice((0, 0, 1, 2))
             s = b"".join(rand_frame(rng, rng.randrange(1, 30)) for _ in range(k)) + h
             if rng.randrange(3) == 0:
@@ -276,7 +278,7 @@ def gen_cases(rng, tier):
         s = rand_frame(rng, 4) + frame(body, lenfield=str(n).encode()) + rand_frame(rng, 6) + rand_frame(rng, 2)
         cs.append(mk(rng.randrange(2), rng.randrange(2), rand_chunks(rng, s), "mismatched-bodylength"))
     # 6. byte mutations of valid streams, aimed at the preambles
-    for _ in range(300 * rep):
+    for _ in range(220 * rep):
         fr = [rand_frame(rng, rng.randrange(1, 40)) for _ in range(rng.randrange(1, 4))]
         j = rng.randrange(len(fr))
         m = bytearray(fr[j])
@@ -294,7 +296,7 @@ def gen_cases(rng, tier):
         s = b"".join(fr)
         cs.append(mk(rng.randrange(3) != 0, rng.randrange(2), rand_chunks(rng, s), "mutated"))
     # 7. digit-heavy garbage
-    for _ in range(150 * rep):
+    for _ in range(110 * rep):
         n = rng.choice((5, 13, 14, 20, 40, 80, 200))
         alpha = rng.choice((b"0123456789", b"0123456789=\x01", b"89=\x01FIX.42", b"\x00\x0118=9", bytes(range(256))))
         s = bytes(rng.choice(alpha) for _ in range(n))
